@@ -4,8 +4,10 @@ import (
 	"context"
 	"crypto/sha256"
 	"encoding/hex"
+	"encoding/json"
 	"errors"
 	"fmt"
+	"github.com/google/uuid"
 	"os"
 	"path/filepath"
 	"sort"
@@ -199,6 +201,22 @@ func (w *world) buildWallets(ctx context.Context) {
 	}
 	w.store = scratch.New()
 	enc := keystorev4.New()
+	// the keystore's key derivation costs ~50 ms per account: keep the serialised wallets of a configuration on disk
+	// (DH_WALLET_CACHE) and load them back into a fresh in-memory store in later processes
+	cacheFile := ""
+	if dir := os.Getenv("DH_WALLET_CACHE"); dir != "" && !w.noCache {
+		h := sha256.Sum256([]byte(w.acctKey() + "|" + strings.Join(w.wallets, ",")))
+		cacheFile = filepath.Join(dir, hex.EncodeToString(h[:16])+".json")
+		if restoreStore(cacheFile, w.store) {
+			var err error
+			w.fetcher, err = memfetcher.New(ctx, memfetcher.WithStores([]e2wtypes.Store{w.store}), memfetcher.WithEncryptor(enc))
+			if err == nil {
+				walletCaches[w.acctKey()] = &walletCache{store: w.store, fetcher: w.fetcher}
+				return
+			}
+			w.store = scratch.New()
+		}
+	}
 	wallets := map[string]e2wtypes.Wallet{}
 	for _, name := range w.wallets {
 		wal, err := nd.CreateWallet(ctx, name, w.store, enc)
@@ -242,6 +260,9 @@ func (w *world) buildWallets(ctx context.Context) {
 	}
 	if !w.noCache {
 		walletCaches[w.acctKey()] = &walletCache{store: w.store, fetcher: w.fetcher}
+	}
+	if cacheFile != "" {
+		dumpStore(cacheFile, w.store)
 	}
 }
 
@@ -358,3 +379,81 @@ func resStr(r fmt.Stringer) string { return r.String() }
 
 var _ = rules.UNKNOWN
 var _ = os.Getenv
+
+type storedWallet struct {
+	ID       string   `json:"id"`
+	Name     string   `json:"name"`
+	Data     []byte   `json:"data"`
+	Index    []byte   `json:"index"`
+	Accounts [][2]any `json:"-"`
+	AccIDs   []string `json:"acc_ids"`
+	AccData  [][]byte `json:"acc_data"`
+}
+
+func dumpStore(file string, st e2wtypes.Store) {
+	var out []storedWallet
+	for wd := range st.RetrieveWallets() {
+		var meta struct {
+			UUID string `json:"uuid"`
+			Name string `json:"name"`
+		}
+		if json.Unmarshal(wd, &meta) != nil {
+			return
+		}
+		id, err := uuid.Parse(meta.UUID)
+		if err != nil {
+			return
+		}
+		sw := storedWallet{ID: meta.UUID, Name: meta.Name, Data: wd}
+		sw.Index, _ = st.RetrieveAccountsIndex(id)
+		for ad := range st.RetrieveAccounts(id) {
+			var am struct {
+				UUID string `json:"uuid"`
+			}
+			if json.Unmarshal(ad, &am) != nil {
+				return
+			}
+			sw.AccIDs = append(sw.AccIDs, am.UUID)
+			sw.AccData = append(sw.AccData, ad)
+		}
+		out = append(out, sw)
+	}
+	b, err := json.Marshal(out)
+	if err != nil {
+		return
+	}
+	_ = os.MkdirAll(filepath.Dir(file), 0o700)
+	tmp := fmt.Sprintf("%s.%d.tmp", file, os.Getpid())
+	if os.WriteFile(tmp, b, 0o600) == nil {
+		_ = os.Rename(tmp, file)
+	}
+}
+
+func restoreStore(file string, st e2wtypes.Store) bool {
+	b, err := os.ReadFile(file)
+	if err != nil {
+		return false
+	}
+	var in []storedWallet
+	if json.Unmarshal(b, &in) != nil || len(in) == 0 {
+		return false
+	}
+	for _, sw := range in {
+		id, err := uuid.Parse(sw.ID)
+		if err != nil || st.StoreWallet(id, sw.Name, sw.Data) != nil {
+			return false
+		}
+		for i := range sw.AccIDs {
+			aid, err := uuid.Parse(sw.AccIDs[i])
+			if err != nil || st.StoreAccount(id, aid, sw.AccData[i]) != nil {
+				return false
+			}
+		}
+		if len(sw.Index) > 0 {
+			if st.StoreAccountsIndex(id, sw.Index) != nil {
+				return false
+			}
+		}
+	}
+	return true
+}
